@@ -135,8 +135,8 @@ PLAN = {
         "prop": ["PoolTimeoutExact"],
         "mc_quick": [("CfgsTO", {"maxclock": 3, "faults": 0})],
         "vacuity": [("DevTO", "CfgsTO", "PoolTimeoutExact")],
-        "scen_quick": ["h1-max1-pto", "h1-max1-pto-AB"],
-        "scen_thorough": ["h1-max1-pto", "h1-max1-pto-AB", "h1-max1-pto-zero"],
+        "scen_quick": ["h1-max1-pto", "h1-max1-pto-AB", "h1-guess-max1-pto"],
+        "scen_thorough": ["h1-max1-pto", "h1-max1-pto-AB", "h1-max1-pto-zero", "h1-guess-max1-pto"],
         "strategies": ["base", "dfs", "late", "time"],
     },
     "C03": {
